@@ -111,3 +111,31 @@ Definition fault (r : reading) : Prop :=
 
 Definition faultb (r : reading) : bool :=
   match r with ReadErr => true | ValF f => negb (is_finite f) | ValZ _ => false end.
+
+(* ---- the hull statement of C08 ---- *)
+
+(* a <= b on float64 (false when either side is NaN) *)
+Definition fle (a b : f64) : bool := PrimFloat.leb a b.
+
+(* the average lies between two of the values seen so far (initial value included):
+   "between the smallest and the largest of its initial value and all readings so far" *)
+Definition in_hull (seen : list f64) (a : f64) : Prop :=
+  (exists v, In v seen /\ fle v a = true) /\ (exists v, In v seen /\ fle a v = true).
+
+(* along a reading sequence: after every poll the average is finite and inside the hull of
+   the initial value and the values read so far ([seen]); failed reads add nothing to [seen] *)
+Fixpoint HullRun (k : kind) (n : Z) (seen : list f64) (a : f64) (rs : list reading) : Prop :=
+  match rs with
+  | [] => True
+  | r :: rest =>
+      let a' := poll k n a r in
+      let seen' := match value_of k r with Some v => v :: seen | None => seen end in
+      is_finite a' = true /\ in_hull seen' a' /\ HullRun k n seen' a' rest
+  end.
+
+(* the magnitude guard (DESIGN section 5 C08, finding D20):
+     window n >= 2 : |v| <= 2^1021 (about 2.2e307); every integer reading satisfies it
+     window n  = 1 : v is an integer of magnitude below 2^52 *)
+Definition boundedb (v : f64) : bool := PrimFloat.leb (PrimFloat.abs v) 0x1p1021%float.
+Definition small_int (v : f64) : Prop := exists z, Z.abs z < 2 ^ 52 /\ v = i2f z.
+Definition value_ok (n : Z) (v : f64) : Prop := if n =? 1 then small_int v else boundedb v = true.
